@@ -279,7 +279,7 @@ func (ts *SimpleTimers) iterate(ctx context.Context) error {
 
 		_ = wk.NewJob(func(context.Context, uint64) error {
 			if keep, err := tr.run(); err != nil || !keep {
-				_ = ts.removeTimer(tr.id)
+				_ = ts.removeTimerOf(tr)
 			}
 
 			return nil
@@ -325,6 +325,26 @@ func (ts *SimpleTimers) removeAllTimers() int64 {
 
 		removed += c
 	}
+
+	return removed
+}
+
+// removeTimerOf removes the given timer only; if new timer was registered
+// under same id meanwhile (e.g. by the callback of the given timer), new one
+// is kept.
+func (ts *SimpleTimers) removeTimerOf(tr *SimpleTimer) bool {
+	removed, _ := ts.timers.Remove(tr.id, func(timer *SimpleTimer, found bool) error {
+		switch {
+		case !found:
+			return nil
+		case timer != tr:
+			return ErrLockedSetIgnore
+		default:
+			timer.whenRemoved()
+
+			return nil
+		}
+	})
 
 	return removed
 }
